@@ -380,6 +380,6 @@ LAWS = [
         rule='start dates (biased to days 28-31) x month offsets in -120000..120000 (boundary set + uniform + small): EDATE = reference (floor-divided month arithmetic, day clamped by calendar.monthrange), #NUM! outside 1900-9999'),
 ]
 
-LEVEL_TEXT = 'Exhaustive over all (h,m,s) in both tiers and over all 2958464 days in the thorough tier (components, ISO text, serials, WEEKDAY); Hypothesis exploration of date pairs (DAYS/DATEDIF) and EDATE offsets with distribution guards on month-end / leap-day cases.'
+LEVEL_TEXT = 'Fresh interpreters under time zones with daylight saving; Exhaustive over all (h,m,s) in both tiers and over all 2958464 days in the thorough tier (components, ISO text, serials, WEEKDAY); Hypothesis exploration of date pairs (DAYS/DATEDIF) and EDATE offsets with distribution guards on month-end / leap-day cases.'
 LEVEL_NOTE = 'Trusted: datetime/calendar as the Gregorian calendar. Ambiguous whole-month readings are excluded and counted.'
 TECHNIQUE = 'exhaustive calendar sweep + Hypothesis differential testing against datetime/calendar'
